@@ -307,7 +307,17 @@ func VerifH_C11_restart() {
 	marks := make([]uint32, n)
 	for i := 0; i < n; i++ {
 		marks[i] = vNondetUint32("c" + string(rune('0'+i)))
-		in <- &gdbi.BaseTraveler{Count: marks[i]}
+		tr := &gdbi.BaseTraveler{Count: marks[i]}
+		if pad := vParam("NATIVE_PAD_KB", 0); pad > 0 {
+			// natively the scanner buffer has its real size (32 MiB): rows are padded so
+			// that the results file is larger than that
+			b := make([]byte, pad*1024)
+			for j := range b {
+				b[j] = 'x'
+			}
+			tr.Current = &gdbi.DataElement{ID: "pad", Label: "P", Data: map[string]interface{}{"pad": string(b)}}
+		}
+		in <- tr
 	}
 	close(in)
 	id, err := fs.Spool(graph, &Stream{Pipe: in, DataType: gdbi.CountData, Query: c11Stmts(jq)})
